@@ -18,7 +18,8 @@ TARGETS = [("x", "next"), ("a", "next"), ("Tt", "next"), ("w", "quote"), ("Kp", 
 LINKS = ([(n, "text") for n in ("a", "a-1", "a-2", "a-1-1", "b", "a-b", "x", "zz", "A", "X", "tt", "Tt", "é-x", "w", "ab")]
          + [(n, "text") for n in ("Kp", "kp", "dn", "DN", "z")]
          + [(n, "empty") for n in ("a", "x", "zz", "b", "Tt", "a-1", "w", "é-x", "KP", "dn", "z")]
-         + [(n, "auto") for n in ("a", "x", "é-x", "zz", "w")])
+         + [(n, "auto") for n in ("a", "x", "é-x", "zz", "w")]
+         + [("", "text"), ("", "empty")])        # a bare '#': the empty name (no target has it: one warning)
 
 
 REV_LINKS = [(n, f) for n in ("a", "1-a", "b", "b A", "B a", "x", "zz") for f in ("text", "empty")]
@@ -83,7 +84,8 @@ def doc_text(items, links, wrap="none"):
     block = []
     for k, (name, form) in enumerate(links):
         dest = f"<#{name}>" if (" " in name or any(ord(c) > 127 for c in name)) else f"#{name}"
-        block += [f"[L{k + 1}]({dest})" if form == "text" else (f"<project:#{name}>" if form == "auto" else f"[]({dest})"), ""]
+        # (every sixth link with text of its own is an icon link: an image without alt text is its whole content)
+        block += [(f"[![](i{k + 1}.png)]({dest})" if icon_link(k + 1) else f"[L{k + 1}]({dest})") if form == "text" else (f"<project:#{name}>" if form == "auto" else f"[]({dest})"), ""]
     if wrap == "quote":
         block = [("> " + b) if b else ">" for b in block] + [""]
     elif wrap == "list":
@@ -99,14 +101,18 @@ def doc_text(items, links, wrap="none"):
             continue
         for k in range(len(links), 0, -1):
             name, form = links[k - 1]
-            if k not in link_lines and ((form == "text" and f"[L{k}](" in ln)):
+            if k not in link_lines and ((form == "text" and (f"[L{k}](" in ln or f"[![](i{k}.png)](" in ln))):
                 link_lines[k] = n
     # empty-text links: by order among the remaining link lines
-    rest = [n for n, ln in enumerate(lines, 1) if n > start and ("[](" in ln or "<project:#" in ln)]
+    rest = [n for n, ln in enumerate(lines, 1) if n > start and (("[](" in ln and "[![](" not in ln) or "<project:#" in ln)]
     for k, (name, form) in enumerate(links, 1):
         if form != "text":
             link_lines[k] = rest.pop(0)
     return text, link_lines
+
+
+def icon_link(k):
+    return k % 6 == 5
 
 
 def observe(text, depth, items, links, slug_func=None):
@@ -143,11 +149,12 @@ def observe(text, depth, items, links, slug_func=None):
     refs = [r for r in doc.findall(nodes.reference) if r.get("id_link")]
     if len(refs) != len(links):
         problems.append(f"{len(refs)} '#'-links in the doctree for {len(links)} written")
-    res, texts, lines = [], [], []
+    res, texts, lines, kinds = [], [], [], []
     for r in refs:
         msgs = [c for c in r.children if isinstance(c, nodes.system_message)]
         txt = "".join(c.astext() for c in r.children if not isinstance(c, nodes.system_message))
         texts.append(txt)
+        kinds.append([c.tagname for c in r.children if not isinstance(c, nodes.system_message)])
         lines.append(r.line)
         if msgs:
             res.append(["missing"])
@@ -166,7 +173,7 @@ def observe(text, depth, items, links, slug_func=None):
     wl = sorted(w["line"] for w in warns if w["tag"] == "myst.xref_missing")
     nslug = sum(1 for w in warns if w["tag"] == "myst.heading_slug")
     other = [w["tag"] or w["msg"][:60] for w in warns if w["tag"] not in ("myst.xref_missing", "myst.heading_slug", "myst.header")]
-    return {"slugs": slugs, "res": res, "texts": texts, "lines": lines, "warn_lines": wl, "nwarn": nslug,
+    return {"slugs": slugs, "res": res, "texts": texts, "kinds": kinds, "lines": lines, "warn_lines": wl, "nwarn": nslug,
             "other": other, "problems": problems, "sec_titles": sec_titles}
 
 
